@@ -6,7 +6,7 @@
 //!   lcp, search            LcpArray::new, SuffixArray::{search_range, search} on that array
 //!   EnhancedSuffixArray    with_lcp / with_bwt (default configuration)
 //!   SuffixArrayCompressor  compression::suffix_array (SA-IS + IntVec storage + own Kasai / binary search)
-//!   SuffixArrayDictionary  dict_zip matcher built on the same array (S-only)
+//!   SuffixArrayDictionary  dict_zip matcher built on the same array: sa_equal_range on every refinement step, sa_match_continuation, da_match_max_length
 //! Every small case is also evaluated in Coq: the verified checker check_sa must agree with the
 //! oracle's verdict, and the models of build / Kasai / BWT / search_range must reproduce the outputs.
 use crate::util::*;
@@ -618,7 +618,7 @@ pub fn run(args: &Args) {
         esa_coq_budget: if args.thorough { 400 } else { 50 },
         dict_coq_budget: if args.thorough { 900 } else { 120 },
     };
-    for (cell, st) in [("build/SAIS", "S-only"), ("EnhancedSuffixArray", "M+S"), ("lcp", "M+S"), ("search", "M+S"),
+    for (cell, st) in [("build/SAIS", "M+S"), ("EnhancedSuffixArray", "M+S"), ("lcp", "M+S"), ("search", "M+S"),
         ("SuffixArrayDictionary/sa_equal_range", "M+S"), ("SuffixArrayDictionary/sa_match_continuation", "M+S"), ("SuffixArrayDictionary/da_match_max_length", "M+S")] { cx.sum.cell_status(cell, st); }
     let mut rng = Rng::new(args.seed);
     if let Some(f) = &args.replay {
